@@ -504,6 +504,14 @@ def oracle_api(run):
          {"correct_tip_offset": {"method": "frechet_direct_path"}}),
         (["compute_tip_position", "correct_tip_offset"],
          {"correct_tip_offset": {"method": "gradient_zero_crossing"}}),
+        # steps that leave the fitted columns as they are (the segment
+        # boundary or the piezo height change instead)
+        (["compute_tip_position", "correct_tip_offset",
+          "correct_split_approach_retract"], {}),
+        (["compute_tip_position", "correct_tip_offset", "smooth_height"],
+         {}),
+        (["compute_tip_position", "correct_force_offset",
+          "correct_tip_offset", "correct_split_approach_retract"], {}),
     ]:
         ii = curves.make_indentation(n_app=40, n_ret=20)
         ii.apply_preprocessing(st2, options=op2)
